@@ -80,6 +80,7 @@ func checkC08(c *Ctx) Meta {
 			c.Bad("C08-TARGET", key, c.Pos(g.Pos()), "the quality of a proof is not computed from that proof, its own key hash, the challenge and the slot")
 		}
 	}
+	checkStaleMonitor(c)
 	if s := c.MustFn("C08-SIGN", "poc/engine/pocminer/miner", "(*PoCMiner).solveBlock"); s != nil {
 		checkSolveBlock(c, s)
 	}
@@ -246,6 +247,56 @@ func checkBestProof(c *Ctx, f *ssa.Function) {
 			c.OK("C08-TARGET", key, c.Pos(gq[0].Pos()), "getQualities(filtered proofs, template challenge, …, workSlot, template height)")
 		} else {
 			c.Bad("C08-TARGET", key, c.Pos(f.Pos()), "qualities are not computed for the filtered proofs with the template's challenge at the current work slot")
+		}
+	}
+	// the best accumulator is per slot: between one slot's qualities and the target comparison the
+	// accumulator is reset, so a quality found for an earlier slot can never be compared with a later
+	// slot's target
+	if len(gq) == 1 {
+		key := "syncGetBestProof:best-reset-every-slot"
+		var cmpRecv ssa.Value
+		var cmpIn ssa.Instruction
+		for _, t := range cmpTests(f, func(bo *ssa.BinOp) bool {
+			cmp, isCall := bo.X.(*ssa.Call)
+			return bo.Op == token.GTR && isCall && calleeID(cmp) == "(*math/big.Int).Cmp" && backSlice(cmp.Call.Args[1]).hasFieldCall("GetTarget")
+		}) {
+			cmpIn = t.If
+			cmpRecv = t.If.Cond.(*ssa.BinOp).X.(*ssa.Call).Call.Args[0]
+		}
+		isReset := func(in ssa.Instruction) bool {
+			switch x := in.(type) {
+			case *ssa.Call:
+				id := calleeID(x)
+				if id == "math/big.NewInt" && cmpRecv != nil {
+					if k, ok := strip(x.Call.Args[0]).(*ssa.Const); ok && k.Value != nil && k.Value.ExactString() == "0" && backSlice(cmpRecv).has(x) && blockReentered(f, x) {
+						return true // bestQuality = big.NewInt(0) inside the slot loop
+					}
+				}
+				if (id == "(*math/big.Int).SetUint64" || id == "(*math/big.Int).SetInt64") && cmpRecv != nil {
+					if k, ok := strip(x.Call.Args[1]).(*ssa.Const); ok && k.Value != nil && k.Value.ExactString() == "0" {
+						return sharesCell(f, x.Call.Args[0], cmpRecv)
+					}
+				}
+			case *ssa.Store:
+				// bestQuality = big.NewInt(0) / new(big.Int)
+				if cmpRecv != nil && sharesCellAddr(f, x.Addr, cmpRecv) {
+					for v := range backSlice(x.Val).vals {
+						if cl, ok := v.(*ssa.Call); ok && calleeID(cl) == "math/big.NewInt" {
+							if k, ok := strip(cl.Call.Args[0]).(*ssa.Const); ok && k.Value.ExactString() == "0" {
+								return true
+							}
+						}
+					}
+				}
+			}
+			return false
+		}
+		if cmpIn == nil {
+			c.Bad("C08-TARGET", key, c.Pos(f.Pos()), "reason=anchor-missing: target comparison")
+		} else if reach(f, gq[0], nil, isReset)(cmpIn) {
+			c.Bad("C08-TARGET", key, c.Pos(gq[0].Pos()), "the best quality is not reset between a slot's qualities and the comparison with that slot's target: the best quality of an earlier slot can win a later slot whose own qualities are all below its target")
+		} else {
+			c.OK("C08-TARGET", key, c.Pos(gq[0].Pos()), "every path from a slot's getQualities to the target comparison passes a reset of the best accumulator")
 		}
 	}
 	// best index and quality together
@@ -608,4 +659,84 @@ func fieldCallsIn(fn *ssa.Function, field string) []*ssa.Call {
 		}
 	})
 	return out
+}
+
+// sharesCell: a and b are loads of the same local cell (or the same SSA value).
+func sharesCell(fn *ssa.Function, a, b ssa.Value) bool {
+	if a == b {
+		return true
+	}
+	la, ok1 := a.(*ssa.UnOp)
+	lb, ok2 := b.(*ssa.UnOp)
+	if ok1 && ok2 && la.X == lb.X {
+		return true
+	}
+	// phi-connected values of one variable
+	return backSlice(a).has(b) || backSlice(b).has(a) || sameOriginValue(fn, a, b)
+}
+
+func sharesCellAddr(fn *ssa.Function, addr ssa.Value, b ssa.Value) bool {
+	lb, ok := b.(*ssa.UnOp)
+	return ok && lb.X == addr
+}
+
+// checkStaleMonitor: the stale monitor waits for blocks at exactly the height of the node it was
+// armed for (the template's parent), so a better sibling at that height wakes it.
+func checkStaleMonitor(c *Ctx) {
+	f := c.MustFn("C08-SLOT", "poc/engine/pocminer/miner", "runStaleMonitor")
+	if f == nil {
+		return
+	}
+	key := "runStaleMonitor:waits-at-parent-height"
+	n := 0
+	bad := ""
+	for _, fn := range withClosures(f) {
+		allInstrs(fn, func(in ssa.Instruction) {
+			cl, ok := in.(*ssa.Call)
+			if !ok || callName(cl) != "BlockWaiter" {
+				return
+			}
+			n++
+			arg := strip(callArgs(cl)[0])
+			_, fld, base, isF := fieldOfValue(arg)
+			if !isF || fld != "Height" {
+				bad = "BlockWaiter is not armed with the node's own Height (an arithmetic expression of it): a better sibling at the parent's height never wakes the monitor"
+				return
+			}
+			// the node is the best node that was compared with the template's parent hash
+			if !backSlice(base).hasCallTo("("+pkgMiner+".Chain).BestBlockNode") && !isParamOrFree(base) {
+				bad = "BlockWaiter is armed for a node other than the chain's best node"
+			}
+		})
+	}
+	// armed only if best node == template parent
+	okGate := false
+	for _, cl := range callsInByName(f, "IsEqual") {
+		if backSlice(callArgs(cl)[0]).hasParam(f, "previousHash") || backSlice(callRecv(cl)).hasParam(f, "previousHash") {
+			okGate = true
+		}
+	}
+	if n == 0 {
+		c.Bad("C08-SLOT", key, c.Pos(f.Pos()), "reason=anchor-missing: BlockWaiter calls")
+	} else if bad != "" || !okGate {
+		if bad == "" {
+			bad = "the monitor is armed without checking that the best node is the template's parent"
+		}
+		c.Bad("C08-SLOT", key, c.Pos(f.Pos()), bad)
+	} else {
+		c.OK("C08-SLOT", key, c.Pos(f.Pos()), fmt.Sprintf("%d BlockWaiter calls, each armed with exactly node.Height of the best node, after the parent-hash check", n))
+	}
+}
+
+func isParamOrFree(v ssa.Value) bool {
+	for {
+		switch x := v.(type) {
+		case *ssa.Parameter, *ssa.FreeVar:
+			return true
+		case *ssa.UnOp:
+			v = x.X
+		default:
+			return false
+		}
+	}
 }
